@@ -1,4 +1,7 @@
 import PepitModel.Ref
+import PepitVerif.Math.Convex
+import Mathlib.Tactic.FieldSimp
+import Mathlib.Tactic.Positivity
 import PepitVerif.Math.PartitionSem
 import Mathlib.Tactic.Linarith
 import Mathlib.Tactic.Ring
@@ -56,3 +59,99 @@ end Pepit.C10
 
 #print axioms Pepit.C10.gd_contraction_attained
 #print axioms Pepit.C10.quadratic_is_member
+
+/-! ## the gradient-descent contraction rate is a valid bound (upper side), for every member -/
+
+namespace Pepit.C10
+open RealInnerProductSpace
+
+variable {E : Type*} [NormedAddCommGroup E] [InnerProductSpace ℝ E]
+
+/-- scalar core: with `a = ‖Δx‖²`, `b = ⟪Δg, Δx⟫`, `c = ‖Δg‖²`, the three consequences of
+`μ`-strong convexity and `L`-smoothness give the contraction of one gradient step for `0 ≤ γ ≤ 2/L` -/
+theorem contraction_scalar (μ L γ a b c : ℝ) (hμ : 0 ≤ μ) (hμL : μ ≤ L) (hγ : 0 ≤ γ) (_ha : 0 ≤ a)
+    (h1 : c + μ * L * a ≤ (L + μ) * b) (h2 : μ * a ≤ b) (h3 : b ≤ L * a) :
+    a - 2 * γ * b + γ ^ 2 * c ≤ max ((1 - γ * μ) ^ 2) ((1 - γ * L) ^ 2) * a := by
+  by_cases hcase : γ * (L + μ) ≤ 2
+  · -- short steps: the strong-convexity side is the worst
+    have : a - 2 * γ * b + γ ^ 2 * c ≤ (1 - γ * μ) ^ 2 * a := by
+      have hc : γ ^ 2 * c ≤ γ ^ 2 * ((L + μ) * b - μ * L * a) :=
+        mul_le_mul_of_nonneg_left (by linarith) (sq_nonneg γ)
+      have hb : γ * (2 - γ * (L + μ)) * (μ * a) ≤ γ * (2 - γ * (L + μ)) * b :=
+        mul_le_mul_of_nonneg_left h2 (mul_nonneg hγ (by linarith))
+      nlinarith
+    exact le_trans this (mul_le_mul_of_nonneg_right (le_max_left _ _) _ha)
+  · -- long steps: the smoothness side is the worst
+    push_neg at hcase
+    have : a - 2 * γ * b + γ ^ 2 * c ≤ (1 - γ * L) ^ 2 * a := by
+      have hc : γ ^ 2 * c ≤ γ ^ 2 * ((L + μ) * b - μ * L * a) :=
+        mul_le_mul_of_nonneg_left (by linarith) (sq_nonneg γ)
+      have hb : γ * (γ * (L + μ) - 2) * b ≤ γ * (γ * (L + μ) - 2) * (L * a) :=
+        mul_le_mul_of_nonneg_left h3 (mul_nonneg hγ (by linarith))
+      nlinarith
+    exact le_trans this (mul_le_mul_of_nonneg_right (le_max_right _ _) _ha)
+
+/-- **upper side of the gradient-descent contraction example**: for every `μ`-strongly convex,
+`L`-smooth `f` (first-order form) and every `γ ≥ 0`, one gradient step from any two points contracts
+squared distances by `max((1−γμ)², (1−γL)²)` — the closed form the example returns (per step) -/
+theorem gd_contraction_upper (f : E → ℝ) (g : E → E) (μ L γ : ℝ) (hμ : 0 < μ) (hμL : μ < L) (hγ : 0 ≤ γ)
+    (hconv : ∀ x y, f y ≥ f x + ⟪g x, y - x⟫ + μ / 2 * ‖y - x‖ ^ 2)
+    (hsm : ∀ x y, f y ≤ f x + ⟪g x, y - x⟫ + L / 2 * ‖y - x‖ ^ 2) (x y : E) :
+    ‖(x - γ • g x) - (y - γ • g y)‖ ^ 2 ≤ max ((1 - γ * μ) ^ 2) ((1 - γ * L) ^ 2) * ‖x - y‖ ^ 2 := by
+  have hL : 0 < L := lt_trans hμ hμL
+  -- a, b, c
+  set a := ‖x - y‖ ^ 2 with ha
+  set b := ⟪g x - g y, x - y⟫ with hb
+  set c := ‖g x - g y‖ ^ 2 with hc
+  have hexp : ‖(x - γ • g x) - (y - γ • g y)‖ ^ 2 = a - 2 * γ * b + γ ^ 2 * c := by
+    have : (x - γ • g x) - (y - γ • g y) = (x - y) - γ • (g x - g y) := by
+      rw [smul_sub]; abel
+    rw [this, @norm_sub_sq_real, norm_smul, real_inner_smul_right, Real.norm_eq_abs, mul_pow, sq_abs,
+      real_inner_comm]
+    ring
+  -- strong monotonicity and the upper bound, by adding the two first-order inequalities
+  have hxy := hconv x y; have hyx := hconv y x
+  have sxy := hsm x y; have syx := hsm y x
+  have hnorm : ‖y - x‖ ^ 2 = a := by rw [ha, ← norm_neg (y - x), neg_sub]
+  have hin1 : ⟪g x, y - x⟫ + ⟪g y, x - y⟫ = -b := by
+    rw [hb, inner_sub_left, ← neg_sub x y, inner_neg_right]; ring
+  have h2 : μ * a ≤ b := by rw [hnorm] at hxy; nlinarith
+  have h3 : b ≤ L * a := by rw [hnorm] at sxy; nlinarith
+  -- the co-coercivity-type inequality from the interpolation inequality (both orders)
+  have i1 := ssc_interp f g μ L hμ.le hμL hconv hsm x y
+  have i2 := ssc_interp f g μ L hμ.le hμL hconv hsm y x
+  have hsq : ‖x - y - (1 / L) • (g x - g y)‖ ^ 2 = a - 2 / L * b + 1 / L ^ 2 * c := by
+    rw [@norm_sub_sq_real, norm_smul, real_inner_smul_right, Real.norm_eq_abs, mul_pow, sq_abs, real_inner_comm]
+    field_simp; ring
+  have hsq' : ‖y - x - (1 / L) • (g y - g x)‖ ^ 2 = a - 2 / L * b + 1 / L ^ 2 * c := by
+    have : y - x - (1 / L) • (g y - g x) = -(x - y - (1 / L) • (g x - g y)) := by
+      rw [smul_sub, smul_sub]; abel
+    rw [this, norm_neg, hsq]
+  have hc' : ‖g y - g x‖ ^ 2 = c := by rw [hc, ← norm_neg (g y - g x), neg_sub]
+  have hin2 : ⟪g y, x - y⟫ + ⟪g x, y - x⟫ = -b := by rw [add_comm]; exact hin1
+  rw [hsq] at i1; rw [hsq', hc'] at i2
+  have hone : 0 < 1 - μ / L := by
+    have : μ / L < 1 := (div_lt_one hL).mpr hμL
+    linarith
+  -- add the two interpolation inequalities: every product with a parameter is an atom for `linarith`
+  have hsum2 : b ≥ 2 * (1 / (2 * L) * c) + 2 * (μ / (2 * (1 - μ / L)) * (a - 2 / L * b + 1 / L ^ 2 * c)) := by
+    linarith [i1, i2, hin1]
+  have hLne : L ≠ 0 := ne_of_gt hL
+  have hd : L - μ ≠ 0 := by linarith
+  have hone' : 1 - μ / L = (L - μ) / L := by field_simp
+  -- clear denominators by hand: multiply by L (L − μ) > 0
+  have hpos : 0 < L * (L - μ) := mul_pos hL (by linarith)
+  have hmul := mul_le_mul_of_nonneg_right hsum2.le hpos.le
+  have hrhs : (2 * (1 / (2 * L) * c) + 2 * (μ / (2 * (1 - μ / L)) * (a - 2 / L * b + 1 / L ^ 2 * c))) * (L * (L - μ))
+      = (L - μ) * c + μ * (L ^ 2 * a - 2 * L * b + c) := by
+    rw [hone']; field_simp
+  rw [hrhs] at hmul
+  have h1 : c + μ * L * a ≤ (L + μ) * b := by
+    have : L * (c + μ * L * a) ≤ L * ((L + μ) * b) := by nlinarith [hmul]
+    exact le_of_mul_le_mul_left this hL
+  rw [hexp]
+  exact contraction_scalar μ L γ a b c hμ.le hμL.le hγ (sq_nonneg _) h1 h2 h3
+
+end Pepit.C10
+
+#print axioms Pepit.C10.gd_contraction_upper
